@@ -148,6 +148,10 @@ def _tree_job(args):
                 nm = rng.choice(["a+b", "x(1)", "b$", "c[0]", "q^q"])
                 if d + (nm,) not in files:
                     files[d + (nm,)] = {"py": True, "body": []}
+        if rng.random() < 0.3:
+            dirs = scan.add_links(rng, dirs, files)       # symbolic links: a pattern applies to the path of the link itself
+            if dirs.links or any(v.get("link_to") for v in files.values()):
+                out["stats"]["projects_with_symlinks"] = out["stats"].get("projects_with_symlinks", 0) + 1
         base = scan.materialise(dirs, files)
         try:
             mp = rng.choice([(root,), (root,)] + [d for d in dirs if len(d) == 2])
